@@ -1008,7 +1008,12 @@ class FuncChr(ValueFunc):
     def execute(self, args, environment, pos):
         if args.isNull("n"):
             return NULL
-        return ValueString(chr(args.getInt("n").value))
+        try:
+            return ValueString(chr(args.getInt("n").value))
+        except (ValueError, OverflowError):
+            raise CklRuntimeError(
+                ValueString("ERROR"), "Invalid code point", pos
+            )
 
 
 class FuncClose(ValueFunc):
@@ -2766,7 +2771,12 @@ class FuncOrd(ValueFunc):
     def execute(self, args, environment, pos):
         if args.isNull("ch"):
             return NULL
-        return ValueInt(ord(args.getString("ch").value[0]))
+        ch = args.getString("ch").value
+        if ch == "":
+            raise CklRuntimeError(
+                ValueString("ERROR"), "ord requires a non-empty string", pos
+            )
+        return ValueInt(ord(ch[0]))
 
 
 class FuncParse(ValueFunc):
